@@ -7,7 +7,7 @@ import sys
 sys.path.insert(0, os.path.join(os.path.dirname(os.path.abspath(__file__)), "..", "lib"))
 from gen_engine import dumps  # noqa: E402
 
-LEAN_MODULES = ["KmipModel.Props.C05"]
+LEAN_MODULES = ["KmipModel.Props.C05", "KmipModel.Props.C05Convert"]
 RULE = ("end-to-end: every one of the seven stored object types is registered through the real ProxyKmipClient "
         "(request encoded to bytes, decoded by the server-side decoder, processed by the real engine, stored in a "
         "SQLite file), the engine is re-created on the same file for a share of the cases, and Get / GetAttributes / "
@@ -349,8 +349,14 @@ def run(ctx):
         outcomes[rr["outcome"].split(":")[0]] = outcomes.get(rr["outcome"].split(":")[0], 0) + 1
         for sig, what in rr["fails"]:
             ctx.report(sig, what, {"kind": "e2e", "args": list(a)})
+    # M13b: the conversion hops of the storage path (ObjectFactory.convert both ways, pie constructors, SQLite rows,
+    # KmipEngine._build_core_object) against the Lean model ConvertObjects, hop by hop, with round-trip monitors
+    import convert_objects_check
+    conv = convert_objects_check.run(ctx, random.Random(ctx.seed * 7919 + 13))
     ctx.coverage.update({
-        "evaluations": len(res) + ncases + hist_cov.get("evaluations", 0) + rc_cov.get("evaluations", 0),
+        "conversion_hops": conv,
+        "evaluations": len(res) + ncases + hist_cov.get("evaluations", 0) + rc_cov.get("evaluations", 0)
+        + int(conv.get("convert_objects", 0) or conv.get("objects", 0) or 0),
         "distinct_nontrivial": len(distinct) + nnormal + hist_cov.get("distinct_nontrivial", 0) + rc_cov.get("distinct_nontrivial", 0),
         "read_then_commit_part": {k: rc_cov.get(k) for k in (
             "evaluations", "distinct_nontrivial", "histories", "correspondence_divergences", "ops", "outcomes")},
@@ -372,6 +378,9 @@ def replay(ctx, rep):
         import engine_check
         import monitors_engine as M
         return engine_check.standard_replay(ctx, rep, [M.mon_c05])
+    if r.get("kind") == "convert-objects":
+        import convert_objects_check
+        return convert_objects_check.replay_case(ctx, r["case"], rep.get("signature"))
     if r.get("kind") == "e2e":
         out = e2e_case(tuple(r["args"]))
         for sig, what in out["fails"]:
